@@ -443,3 +443,60 @@ PROPS["C06"] = dict(
     replays=[_rp("f9_pages_are_one_snapshot_across_stabilisation", "F9")],
     assumptions=COMMON_ASSUMPTIONS,
 )
+
+
+# ----------------------------------------------------------------------------------------------------------------------------------
+# third session: amendments to the texts above (the functions named here moved from assumed / not decided to verified)
+# ----------------------------------------------------------------------------------------------------------------------------------
+def _amend(pid, key, old, new):
+    v = PROPS[pid][key]
+    assert old in v, (pid, key, old[:50])
+    PROPS[pid][key] = v.replace(old, new)
+
+
+def _relink(pid, old_prefix, new):
+    ls = PROPS[pid]["unverified_links"]
+    k = [i for i, x in enumerate(ls) if x.startswith(old_prefix)]
+    assert k, (pid, old_prefix)
+    ls[k[0]] = new
+
+
+_amend("C01", "level_text", "The F1 replay re-runs the prefix-address scenario on the real endpoints",
+       "(Verus, unit ingest, real bodies of utxo_set.rs / utxos_delta.rs) throughout the ingestion of a stable block — at every pause, for any "
+       "schedule — the address index is exactly the address-paying part of the UTXO map (index_ok: every such output listed once under its address "
+       "and height, nothing else), the UTXO map after the block is apply_txs(start, block) (every input removed once, every non-OP_RETURN output "
+       "inserted once with the block's height), and readers see the pre-block state of every address-paying output while it is in progress. "
+       "The F1 replay re-runs the prefix-address scenario on the real endpoints")
+_amend("C01", "level_note", "NOT decided: that the stable maps plus per-block deltas equal the ledger replay (remove_inputs / insert_outputs / insert_utxo / insert_outpoints / "
+       "OutPointsCache / get_address_outpoints / AddressUtxoSet::into_iter are closure pipelines over StableBTreeMaps and entry-API maps: neither tool reads them),",
+       "NOT decided: the balances map, the CONTENT of the unstable per-block address deltas (insert_outpoints is verified for reference counts and delta keys "
+       "only), the lazy pipelines of get_address_outpoints / AddressUtxoSet::into_iter beyond the verified closure slices, the three stable maps themselves "
+       "(stand-ins with map semantics),")
+_relink("C01", "utxo_set.rs remove_inputs", "utxos.rs small/medium/large split and the two other stable maps (stand-ins with map semantics); the balances map under ingestion "
+        "(remove_inputs / insert_utxo keep it in step with the set: not specified)")
+_relink("C01", "outpoints_cache.rs insert_outpoints", "content of the per-address delta lists built by insert_outpoints (keys and reference counts ARE verified, unit ledger), "
+        "address_utxoset.rs into_iter, multi_iter.rs merge")
+_amend("C03", "level_note", "UtxoSet::ingest_block(_continue), BlockHeaderStore::insert_block assumed (stable structures)",
+       "UtxoSet::ingest_block(_continue) are assumed contracts in unit core (they are VERIFIED on their real bodies in unit ingest, see C08), "
+       "BlockHeaderStore::insert_block assumed (stable structures); NextBlockHeaders::remove_until_height and BlockTree::remove_from_cache inside pop are verified real bodies")
+_amend("C10", "level_note", "unstable_blocks::push and BlockValidator::validate_block are callees with ASSUMED contracts here (find_mut returning &mut / Rc<RefCell<dyn>>; unit valid);",
+       "unstable_blocks::push is a callee with an ASSUMED contract (BlockTree::find_mut — recursion through iter_mut returning &mut — is an assumed contract; what push "
+       "calls is verified: insert_outpoints in unit ledger, NextBlockHeaders::remove here), BlockValidator::validate_block is verified in unit valid; "
+       "insert_next_block_headers skips announced headers, which discharges NextBlockHeaders::insert's precondition;")
+_amend("C14", "level_note", "NextBlockHeaders::get_max_height is opaque (its bookkeeping over histories is not verified);",
+       "NextBlockHeaders is the REAL struct: get_max_height is verified to return the greatest announced height (nbh_max_height) under the representation invariant "
+       "nbh_wf, which insert / remove / remove_until_height are verified to keep; UnstableBlocks::block_depth is verified on its real body over an assumed find_mut;")
+_relink("C14", "value of next_block_headers_max_height() over histories",
+        "BlockTree::find_mut (assumed contract) under block_depth; unstable_blocks::push (assumed contract) calling NextBlockHeaders::remove; NextBlockHeaders itself "
+        "(two BTreeMaps) IS verified: insert / remove / remove_until_height / get_max_height / get_height / get_header on their real bodies with the representation "
+        "invariant nbh_wf")
+_amend("C15", "level_note", "the input-sum bookkeeping of insert_outpoints (entry-API maps) are assumed as uninterpreted functions;",
+       "the exact input sums of insert_outpoints are not specified (the function is verified as a WHOLE in unit ledger for its reference counts, its atomic failure and "
+       "'at most one rate per non-coinbase transaction');")
+_amend("C17", "level_note", "that every provider's slot is written in every round is in async fetch code (not decided)",
+       "lib.rs::fetch_block_height is verified: a round stores exactly what it fetched (the canister height included, None when the call failed) and every fetched provider "
+       "entry; health::health_status is verified to judge by exactly the stored canister height and the stored entries of the configured explorers; that "
+       "fetch_all_providers_data returns one entry per provider is in async fetch code (not decided)")
+_relink("C03", "cache side effects inside pop", "cache side effects inside pop: OutPointsCache::remove (verified in unit ledger; a stand-in here) over the opaque `blocks()` vector, tip_depths "
+        "(opaque); NextBlockHeaders::remove_until_height and remove_from_cache ARE verified real bodies; UtxoSet::ingest_block(_continue) (verified in unit ingest; assumed contracts here)")
+_relink("C10", "the glue of ValidationContext::new", "unstable_blocks::push body (assumed contract; BlockTree::find_mut assumed)")
